@@ -24,6 +24,8 @@ import PgProofs.GenoRandom
 import PgProofs.GenoOdo3
 import PgProofs.GenoIncr
 import PgProofs.GenoCount
+import PgProofs.GenoInf
+import PgProofs.GenoRandomPrev
 import PgGen.C11Tables
 namespace Pg.Geno
 
@@ -88,6 +90,18 @@ i.e. whose draws respect the contract of `random.Random` — the result satisfie
 theorem C11_random (g : Spec) (o : List Draw) (d : DNA) (rest : List Draw)
     (h : g.random o = some (d, rest)) : Valid g d :=
   random_valid g o d rest h
+
+/-- `space_size == -1` propagates through every combinator: a spec (of any shape) reports an
+infinite size exactly when it contains a float or a custom decision point. -/
+theorem C11_size_infinite (g : Spec) : g.size = none ↔ g.finite = false :=
+  size_none_iff g
+
+/-- `random_dna(rng, previous_dna=p)` returns a member for EVERY oracle stream and EVERY `p`
+(member or not, bound or malformed): whenever the call returns at all it returns exactly what
+the call without `previous_dna` returns on the same draws. -/
+theorem C11_random_previous (g : Spec) (prev : Option DNA) (o : List Draw) (d : DNA) (rest : List Draw)
+    (h : g.randomPrev prev o = some (d, rest)) : g.random o = some (d, rest) ∧ Valid g d :=
+  ⟨randomPrev_some g prev o (d, rest) h, random_valid g o d rest (randomPrev_some g prev o (d, rest) h)⟩
 
 /-! ### Proved in full: the odometer theorem for every finite well-formed spec -/
 
@@ -260,6 +274,7 @@ example : ∀ d s, (exampleMulti d s).finite = true ∧ (exampleMulti d s).wf = 
 example : ∀ d s, (exampleMulti d s).iter 40 = some ((exampleMulti d s).all, true) := by decide
 example : ∀ d s, (exampleMulti d s).size = some (exampleMulti d s).all.length := by decide
 example : ((exampleMulti true true).random [.sample [2, 1], .sample [0]]).isSome = true := by decide
+example : ((exampleMulti true true).randomPrev (some (exampleMulti true true).first) [.sample [2, 1], .sample [0]]).isSome = true := by decide
 example : ((exampleMulti false true).random [.randint 1, .randint 1, .sample [1], .sample [0]]).isSome = true := by decide
 example : (exampleMulti true true).all.length = 5 ∧ (exampleMulti false false).all.length = 16 := by decide
 
